@@ -18,14 +18,16 @@ use grin_core::core::transaction::{
 	CommitWrapper, FeeFields, Input, Inputs, KernelFeatures, NRDRelativeHeight, Output, OutputFeatures,
 	OutputIdentifier, Transaction, TransactionBody, TxKernel,
 };
-use grin_core::core::{Block, BlockHeader, CompactBlock, HeaderVersion};
+use grin_core::core::{Block, BlockHeader, HeaderEntry, CompactBlock, HeaderVersion, UntrustedBlock, UntrustedBlockHeader, UntrustedCompactBlock};
 use grin_core::global::{self, ChainTypes};
-use grin_core::pow::{Difficulty, Proof, ProofOfWork};
+use grin_core::pow::{self, Difficulty, Proof, ProofOfWork};
 use grin_core::ser::{self, DeserializationMode, ProtocolVersion, Readable, Writeable};
 use grin_keychain::BlindingFactor;
+use grin_core::core::merkle_proof::MerkleProof;
+use grin_core::core::BlockSums;
 use grin_p2p::msg::{
-	GetPeerAddrs, Hand, Headers, Locator, PeerAddrs, Ping, Pong, SegmentRequest, Shake, TxHashSetArchive,
-	TxHashSetRequest,
+	GetPeerAddrs, Hand, Headers, Locator, OutputBitmapSegmentResponse, OutputSegmentResponse, PeerAddrs, PeerError, Ping, Pong,
+	SegmentRequest, SegmentResponse, Shake, TxHashSetArchive, TxHashSetRequest,
 };
 use grin_p2p::types::{Capabilities, PeerAddr};
 use grin_util::secp::pedersen::{Commitment, RangeProof};
@@ -41,7 +43,17 @@ use std::panic::{catch_unwind, AssertUnwindSafe};
 use vcommon::*;
 
 const VERSIONS: [u32; 4] = [1, 2, 3, 1000];
-const V4MAPPED: &str = "V4MAPPED:";
+/// a value mismatch of a recognised class is returned by the comparison as "CLS:<class>:<detail>"
+const CLSP: &str = "CLS:";
+fn split_cls(d: &str) -> (&str, String) {
+	if d.starts_with(CLSP) {
+		let rest = &d[CLSP.len()..];
+		if let Some(i) = rest.find(':') {
+			return (&rest[..i], rest[i + 1..].to_string());
+		}
+	}
+	("", d.to_string())
+}
 
 fn main() {
 	quiet_panics();
@@ -76,6 +88,10 @@ struct Env {
 	seed: u64,
 	nums: HashMap<String, u64>,
 	bytes: HashMap<String, Vec<u8>>,
+	/// proof nonces bound after mining (value class "mined")
+	mined: HashMap<String, Vec<u64>>,
+	/// drawn bit sets (a layout is rendered once per perturbation: the draw is a function of the key only)
+	bitsets: HashMap<String, Vec<u32>>,
 }
 
 fn ts_max() -> i64 {
@@ -101,6 +117,8 @@ impl Env {
 			seed,
 			nums: HashMap::new(),
 			bytes: HashMap::new(),
+			mined: HashMap::new(),
+			bitsets: HashMap::new(),
 		}
 	}
 	fn rng(&self, key: &str) -> StdRng {
@@ -117,6 +135,9 @@ impl Env {
 		let v = match cls {
 			"any" => r.gen::<u64>() & mask,
 			"zero" => 0,
+			"one" => 1,
+			"bool" => r.gen::<u64>() & 1,
+			"mined" => panic!("harness: symbol {} of class mined used before the header was mined", sym),
 			"max" => mask,
 			"fee_min" => 1,
 			"fee_any" => ((r.gen::<u64>() & 15) << 40) | (1 + r.gen::<u64>() % ((1u64 << 40) - 1)),
@@ -157,6 +178,24 @@ impl Env {
 				v[0] = 0x20;
 				v[1] = 0x01;
 			}
+			"ip6_loopback" => {
+				for b in v.iter_mut().take(15) {
+					*b = 0;
+				}
+				v[15] = 1;
+			}
+			"ip6_unspecified" => {
+				for b in v.iter_mut() {
+					*b = 0;
+				}
+			}
+			"ip6_compat" => {
+				// ::a.b.c.d with a >= 1 (neither :: nor ::1)
+				for b in v.iter_mut().take(12) {
+					*b = 0;
+				}
+				v[12] |= 1;
+			}
 			"ip6_mapped" => {
 				for b in v.iter_mut().take(10) {
 					*b = 0;
@@ -174,6 +213,11 @@ impl Env {
 		self.bytes.insert(format!("{}|{}", sym, v.len()), v);
 	}
 	fn nonces(&mut self, sym: &str, w: u32, cnt: usize, cls: &str) -> Vec<u64> {
+		if cls == "mined" {
+			let v = self.mined.get(sym).unwrap_or_else(|| panic!("harness: nonces {} used before the header was mined", sym)).clone();
+			assert_eq!(v.len(), cnt, "harness: mined proof size");
+			return v;
+		}
 		let mut r = self.rng(&format!("{}|nonces|{}|{}", sym, w, cnt));
 		let mask = if w == 64 { u64::MAX } else { (1u64 << w) - 1 };
 		(0..cnt)
@@ -186,11 +230,16 @@ impl Env {
 	}
 	/// npos distinct positions below nbits, ascending
 	fn bitset(&mut self, sym: &str, nbits: usize, npos: usize) -> Vec<u32> {
-		let mut r = self.rng(&format!("{}|bits|{}|{}", sym, nbits, npos));
+		let key = format!("{}|bits|{}|{}", sym, nbits, npos);
+		if let Some(v) = self.bitsets.get(&key) {
+			return v.clone();
+		}
+		let mut r = self.rng(&key);
 		let mut all: Vec<u32> = (0..nbits as u32).collect();
 		all.shuffle(&mut r);
 		all.truncate(npos);
 		all.sort_unstable();
+		self.bitsets.insert(key, all.clone());
 		all
 	}
 }
@@ -483,6 +532,79 @@ fn b_header(env: &mut Env, v: &Value) -> BlockHeader {
 		pow: b_pow(env, &v["pow"]),
 	}
 }
+/// an admissible header (Wire.tla `Admissible`): built from the spec's value with nonce / proof placeholders, then the proof of
+/// work is solved with grin's own miner and the "mined" symbols are bound to the solution
+fn b_header_mined(env: &mut Env, v: &Value) -> BlockHeader {
+	let nsym = st(&v["pow"]["nonce"], "sym").to_string();
+	let psym = st(&v["pow"]["proof"]["nonces"], "sym").to_string();
+	let ps = un(&v["pow"]["proof"], "ps") as usize;
+	let start: u64 = env.rng(&format!("{}|start", nsym)).gen();
+	env.set_num(&nsym, "u64", "mined", start);
+	env.mined.insert(psym.clone(), vec![0; ps]);
+	let mut h = b_header(env, v);
+	pow::pow_size(&mut h, Difficulty::min_dma(), global::proofsize(), global::min_edge_bits()).expect("mine header");
+	assert_eq!(h.pow.proof.edge_bits as u64, un(&v["pow"]["proof"], "eb"), "harness: mined edge bits");
+	env.set_num(&nsym, "u64", "mined", h.pow.nonce);
+	env.mined.insert(psym, h.pow.proof.nonces.clone());
+	h
+}
+fn untrusted(case: &Value) -> bool {
+	case.get("via").and_then(|x| x.as_str()) == Some("untrusted")
+}
+
+/// the network readers have no Writeable: written through the trusted type, read through Untrusted*::read
+struct UH(BlockHeader);
+struct UB(Block);
+struct UCB(CompactBlock);
+impl Writeable for UH {
+	fn write<W: ser::Writer>(&self, w: &mut W) -> Result<(), ser::Error> {
+		self.0.write(w)
+	}
+}
+impl Readable for UH {
+	fn read<R: ser::Reader>(r: &mut R) -> Result<Self, ser::Error> {
+		UntrustedBlockHeader::read(r).map(|u| UH(u.into()))
+	}
+}
+impl Writeable for UB {
+	fn write<W: ser::Writer>(&self, w: &mut W) -> Result<(), ser::Error> {
+		self.0.write(w)
+	}
+}
+impl Readable for UB {
+	fn read<R: ser::Reader>(r: &mut R) -> Result<Self, ser::Error> {
+		UntrustedBlock::read(r).map(|u| UB(u.into()))
+	}
+}
+impl Writeable for UCB {
+	fn write<W: ser::Writer>(&self, w: &mut W) -> Result<(), ser::Error> {
+		self.0.write(w)
+	}
+}
+impl Readable for UCB {
+	fn read<R: ser::Reader>(r: &mut R) -> Result<Self, ser::Error> {
+		UntrustedCompactBlock::read(r).map(|u| UCB(u.into()))
+	}
+}
+fn cb_eq(a: &CompactBlock, b: &CompactBlock) -> Option<String> {
+	if a.header != b.header {
+		return Some("header differs".into());
+	}
+	if a.nonce != b.nonce {
+		return Some("nonce differs".into());
+	}
+	if a.out_full() != b.out_full() || a.out_full().iter().zip(b.out_full()).any(|(p, q)| p.proof != q.proof) {
+		return Some("out_full differs".into());
+	}
+	if a.kern_full() != b.kern_full() {
+		return Some("kern_full differs".into());
+	}
+	if a.kern_ids().iter().map(|i| i.as_ref().to_vec()).collect::<Vec<_>>() != b.kern_ids().iter().map(|i| i.as_ref().to_vec()).collect::<Vec<_>>() {
+		return Some("kern_ids differ".into());
+	}
+	None
+}
+
 fn b_addr(env: &mut Env, v: &Value) -> PeerAddr {
 	let port = nv(env, &v["port"], "u16") as u16;
 	if un(v, "fam") == 4 {
@@ -506,7 +628,8 @@ fn b_segproof(env: &mut Env, syms: &Value) -> SegmentProof {
 }
 fn b_segid(env: &mut Env, v: &Value) -> SegmentIdentifier {
 	SegmentIdentifier {
-		height: nv(env, &v["height"], "u8") as u8,
+		// BitmapSegment: the height is a literal of the spec (it decides the capacity); elsewhere a symbolic number
+		height: if v["height"].is_u64() { un(v, "height") as u8 } else { nv(env, &v["height"], "u8") as u8 },
 		idx: nv(env, &v["idx"], "u64"),
 	}
 }
@@ -559,6 +682,20 @@ impl<'a> Ctx<'a> {
 			self.mism.push(json!({"what": what, "cls": cls, "inst": self.inst, "detail": detail}));
 		}
 	}
+	/// a deviation of one of the other Reader implementations: reported (with the reader's name) unless the BinReader
+	/// pass of this instance already reported the same thing (then it is a property of the type's read(), not of the reader)
+	fn bad_rd(&mut self, rd: Rd, what: &str, cls: &str, detail: String) {
+		if rd == Rd::Bin {
+			return self.bad(what, cls, detail);
+		}
+		let inst = self.inst;
+		if self.mism.iter().any(|m| m["what"] == what && m["cls"] == cls && m["inst"] == inst && m.get("rd").is_none()) {
+			return;
+		}
+		if self.mism.len() < 12 {
+			self.mism.push(json!({"what": what, "cls": cls, "rd": rd.name(), "inst": self.inst, "detail": detail}));
+		}
+	}
 }
 
 fn hex(b: &[u8]) -> String {
@@ -583,13 +720,72 @@ fn first_diff(a: &[u8], b: &[u8]) -> String {
 	)
 }
 
-fn de<T: Readable>(bytes: &[u8], ver: u32) -> Result<Result<(T, usize), ser::Error>, ()> {
-	catch_unwind(AssertUnwindSafe(|| {
-		let mut rd = bytes;
-		let r = ser::deserialize::<T, _>(&mut rd, ProtocolVersion(ver), DeserializationMode::default());
-		r.map(|y| (y, rd.len()))
+/// The three implementations of `ser::Reader` (Wire.tla `Readers`): BinReader through ser::deserialize, BufReader on a
+/// BytesMut exactly as p2p::codec reads a message body, StreamingReader on a stream as the handshake does.
+#[derive(Clone, Copy, PartialEq, Debug)]
+enum Rd {
+	Bin,
+	Buf,
+	Stream,
+}
+impl Rd {
+	fn name(self) -> &'static str {
+		match self {
+			Rd::Bin => "bin",
+			Rd::Buf => "buf",
+			Rd::Stream => "stream",
+		}
+	}
+}
+fn readers_of(case: &Value) -> Vec<Rd> {
+	match case.get("readers").and_then(|r| r.as_array()) {
+		None => vec![Rd::Bin],
+		Some(a) => a
+			.iter()
+			.map(|x| match x.as_str().unwrap_or("") {
+				"bin" => Rd::Bin,
+				"buf" => Rd::Buf,
+				"stream" => Rd::Stream,
+				o => panic!("harness: unknown reader {}", o),
+			})
+			.collect(),
+	}
+}
+
+fn de_with<T: Readable>(bytes: &[u8], ver: u32, rd: Rd) -> Result<Result<(T, usize), ser::Error>, ()> {
+	catch_unwind(AssertUnwindSafe(|| match rd {
+		Rd::Bin => {
+			let mut r = bytes;
+			let y = ser::deserialize::<T, _>(&mut r, ProtocolVersion(ver), DeserializationMode::default());
+			y.map(|y| (y, r.len()))
+		}
+		Rd::Buf => {
+			let mut buf = bytes::BytesMut::from(bytes);
+			let (y, used) = {
+				let mut r = ser::BufReader::new(&mut buf, ProtocolVersion(ver));
+				let y: Result<T, ser::Error> = r.body();
+				(y, r.bytes_read() as usize)
+			};
+			let _ = used; // bytes_read() is the framing layer's business (C19); what counts here is what left the buffer
+			y.map(|y| (y, bytes::Buf::remaining(&buf)))
+		}
+		Rd::Stream => {
+			let mut cur = std::io::Cursor::new(bytes);
+			let (y, used) = {
+				let mut r = ser::StreamingReader::new(&mut cur, ProtocolVersion(ver));
+				let y = T::read(&mut r);
+				(y, r.total_bytes_read() as usize)
+			};
+			// total_bytes_read() counts the 8 bytes of a length prefix twice (read_bytes_len_prefix): recorded by `probe`,
+			// not a verdict - the bytes really consumed are the stream's position
+			let _ = used;
+			y.map(|y| (y, bytes.len() - cur.position() as usize))
+		}
 	}))
 	.map_err(|_| ())
+}
+fn de<T: Readable>(bytes: &[u8], ver: u32) -> Result<Result<(T, usize), ser::Error>, ()> {
+	de_with(bytes, ver, Rd::Bin)
 }
 fn enc<T: Writeable>(x: &T, ver: u32) -> Result<Result<Vec<u8>, ser::Error>, ()> {
 	catch_unwind(AssertUnwindSafe(|| ser::ser_vec(x, ProtocolVersion(ver)))).map_err(|_| ())
@@ -642,6 +838,18 @@ where
 		return;
 	}
 	let readable = case["readable"].as_bool().unwrap();
+	if !readable {
+		// the spec says the reader refuses this (writable) value: every Reader implementation must
+		for rd in readers_of(case) {
+			ctx.checks += 1;
+			match de_with::<T>(&real, ver, rd) {
+				Err(()) => ctx.bad_rd(rd, "read_panic", "", "deserialisation of own encoding panicked".into()),
+				Ok(Ok(_)) => ctx.bad_rd(rd, "read_accepted_unreadable", "", "spec says this encoding is refused".into()),
+				Ok(Err(_)) => {}
+			}
+		}
+		return;
+	}
 	ctx.checks += 1;
 	match de::<T>(&real, ver) {
 		Err(()) => {
@@ -649,27 +857,22 @@ where
 			return;
 		}
 		Ok(Err(e)) => {
-			if readable {
-				ctx.bad("read_error", "", format!("own encoding refused: {:?}", e));
-			}
+			ctx.bad("read_error", "", format!("own encoding refused: {:?}", e));
 			return;
 		}
 		Ok(Ok((y, left))) => {
-			if !readable {
-				ctx.bad("read_accepted_unreadable", "", "spec says this encoding is refused".into());
-				return;
-			}
 			if left != 0 {
 				ctx.bad("trailing", "", format!("{} bytes not consumed", left));
 			}
 			ctx.checks += 1;
 			if let Some(d) = eq(x, &y, ver, env) {
-				if d.starts_with(V4MAPPED) {
+				let (cls, d) = split_cls(&d);
+				if cls == "v4_mapped_to_v4" || cls == "v4_compatible_to_v4" {
 					// the differing re-encodings are consequences of this one normalisation: reported once
-					ctx.bad("value", "v4_mapped_to_v4", d[V4MAPPED.len()..].to_string());
+					ctx.bad("value", cls, d);
 					return;
 				}
-				ctx.bad("value", "", d);
+				ctx.bad("value", cls, d);
 			}
 			ctx.checks += 1;
 			match enc(&y, ver) {
@@ -693,6 +896,31 @@ where
 					if a != b {
 						ctx.bad("cross_version", "", format!("decoded at v{} then written at v{}: {}", ver, v2, first_diff(&b, &a)));
 					}
+				}
+			}
+		}
+	}
+	// the same encoding through the other Reader implementations: same outcome as Dec states
+	for rd in readers_of(case).into_iter().filter(|r| *r != Rd::Bin) {
+		ctx.checks += 1;
+		match de_with::<T>(&real, ver, rd) {
+			Err(()) => ctx.bad_rd(rd, "read_panic", "", "deserialisation of own encoding panicked".into()),
+			Ok(Err(e)) => ctx.bad_rd(rd, "read_error", "", format!("own encoding refused: {:?}", e)),
+			Ok(Ok((y, left))) => {
+				if left != 0 {
+					ctx.bad_rd(rd, "trailing", "", format!("{} bytes not consumed", left));
+				}
+				if let Some(d) = eq(x, &y, ver, env) {
+					let (cls, d) = split_cls(&d);
+					ctx.bad_rd(rd, "value", cls, d);
+				}
+				match enc(&y, ver) {
+					Ok(Ok(b2)) => {
+						if b2 != real {
+							ctx.bad_rd(rd, "reencode", "", first_diff(&b2, &real));
+						}
+					}
+					_ => ctx.bad_rd(rd, "reencode", "", "re-serialisation failed".into()),
 				}
 			}
 		}
@@ -721,29 +949,34 @@ where
 			ctx.bad("harness_perturbation_noop", cls, "perturbed rendering equals the original".into());
 			continue;
 		}
-		ctx.checks += 1;
-		match de::<T>(&pb, ver) {
-			Err(()) => ctx.bad("panic", cls, format!("decoder panicked on {}", hex(&pb))),
-			Ok(Ok((y, left))) => {
-				let again = enc(&y, ver).ok().and_then(|r| r.ok()).map(|b| hex(&b)).unwrap_or_default();
-				ctx.bad(
-					"accepted",
-					cls,
-					format!("non-canonical encoding accepted ({} bytes left); bytes {} re-encode as {}", left, hex(&pb), again),
-				)
+		for rd in readers_of(case) {
+			ctx.checks += 1;
+			match de_with::<T>(&pb, ver, rd) {
+				Err(()) => ctx.bad_rd(rd, "panic", cls, format!("decoder panicked on {}", hex(&pb))),
+				Ok(Ok((y, left))) => {
+					let again = enc(&y, ver).ok().and_then(|r| r.ok()).map(|b| hex(&b)).unwrap_or_default();
+					ctx.bad_rd(
+						rd,
+						"accepted",
+						cls,
+						format!("non-canonical encoding accepted ({} bytes left); bytes {} re-encode as {}", left, hex(&pb), again),
+					)
+				}
+				Ok(Err(_)) => {}
 			}
-			Ok(Err(_)) => {}
 		}
 	}
 	if case["nrdoff"].as_bool().unwrap() {
-		global::set_local_nrd_enabled(false);
-		let r = de::<T>(&real, ver);
-		global::set_local_nrd_enabled(true);
-		ctx.checks += 1;
-		match r {
-			Err(()) => ctx.bad("panic", "nrd_disabled", "decoder panicked".into()),
-			Ok(Ok(_)) => ctx.bad("accepted", "nrd_disabled", "NRD kernel accepted with the feature flag off".into()),
-			Ok(Err(_)) => {}
+		for rd in readers_of(case) {
+			global::set_local_nrd_enabled(false);
+			let r = de_with::<T>(&real, ver, rd);
+			global::set_local_nrd_enabled(true);
+			ctx.checks += 1;
+			match r {
+				Err(()) => ctx.bad_rd(rd, "panic", "nrd_disabled", "decoder panicked".into()),
+				Ok(Ok(_)) => ctx.bad_rd(rd, "accepted", "nrd_disabled", "NRD kernel accepted with the feature flag off".into()),
+				Ok(Err(_)) => {}
+			}
 		}
 	}
 }
@@ -757,6 +990,23 @@ fn peq<T: PartialEq + std::fmt::Debug>(x: &T, y: &T) -> Option<String> {
 	} else {
 		Some(format!("decoded {:?} expected {:?}", y, x).chars().take(600).collect())
 	}
+}
+
+fn b_rproof(env: &mut Env, sym: &str) -> RangeProof {
+	let p = env.bytes(sym, 675, "");
+	let mut proof = [0u8; 675];
+	proof.copy_from_slice(&p);
+	RangeProof { proof, plen: 675 }
+}
+/// Segment<RangeProof>: RangeProof's PartialEq looks at the bytes; plen is compared as well
+fn seg_rp_eq(a: &Segment<RangeProof>, b: &Segment<RangeProof>) -> Option<String> {
+	if a != b {
+		return Some(format!("decoded {:?} expected {:?}", b.id(), a.id()) + " (segments differ)");
+	}
+	if a.leaf_iter().zip(b.leaf_iter()).any(|((_, p), (_, q))| p.plen != q.plen || p.proof[..] != q.proof[..]) {
+		return Some("range proof leaves differ".into());
+	}
+	None
 }
 
 /// what a round trip at `ver` preserves of the inputs: compared by commitment where the version omits features
@@ -900,13 +1150,30 @@ fn run_case(case: &Value, seed: u64, inst: u64) -> (u64, Vec<Value>) {
 			let x = b_pow(e, v);
 			check(c, e, &x, |a, b, _, _| peq(a, b), no_hash());
 		}
+		"BlockHeader" if untrusted(case) => {
+			let x = UH(b_header_mined(e, v));
+			check(c, e, &x, |a: &UH, b: &UH, _, _| peq(&a.0, &b.0), Some(|h: &UH| h.0.hash()));
+		}
 		"BlockHeader" => {
 			let x = b_header(e, v);
 			check(c, e, &x, |a, b, _, _| peq(a, b), Some(|h: &BlockHeader| h.hash()));
 		}
+		"Block" if untrusted(case) => {
+			let x = UB(Block {
+				header: b_header_mined(e, &v["header"]),
+				body: b_body(e, &v["body"], keys),
+			});
+			check(
+				c,
+				e,
+				&x,
+				|a: &UB, b: &UB, ver, _| if a.0.header != b.0.header { Some("header differs".into()) } else { body_eq(&a.0.body, &b.0.body, ver) },
+				Some(|b: &UB| b.0.hash()),
+			);
+		}
 		"Block" => {
 			let x = Block {
-				header: b_header(e, &v["header"]),
+				header: if st(&v["header"]["pow"]["nonce"], "cls") == "mined" { b_header_mined(e, &v["header"]) } else { b_header(e, &v["header"]) },
 				body: b_body(e, &v["body"], keys),
 			};
 			check(
@@ -920,7 +1187,7 @@ fn run_case(case: &Value, seed: u64, inst: u64) -> (u64, Vec<Value>) {
 		"CompactBlock" => {
 			// only constructible from a block: coinbase outputs / kernels stay full, the others become short ids;
 			// the random nonce and the derived short ids are bound to the spec's symbols afterwards
-			let header = b_header(e, &v["header"]);
+			let header = if untrusted(case) { b_header_mined(e, &v["header"]) } else { b_header(e, &v["header"]) };
 			let outs: Vec<Output> = v["out_full"].as_array().unwrap().iter().map(|o| b_output(e, o)).collect();
 			let mut kerns: Vec<TxKernel> = v["kern_full"].as_array().unwrap().iter().map(|k| b_kern(e, k)).collect();
 			let nid = v["kern_ids"].as_array().unwrap().len();
@@ -935,30 +1202,12 @@ fn run_case(case: &Value, seed: u64, inst: u64) -> (u64, Vec<Value>) {
 				let sym = st(&v["kern_ids"][j], "id").to_string();
 				e.set_bytes(&sym, id.as_ref().to_vec());
 			}
-			check(
-				c,
-				e,
-				&cb,
-				|a: &CompactBlock, b: &CompactBlock, _, _| {
-					if a.header != b.header {
-						return Some("header differs".into());
-					}
-					if a.nonce != b.nonce {
-						return Some("nonce differs".into());
-					}
-					if a.out_full() != b.out_full() || a.out_full().iter().zip(b.out_full()).any(|(p, q)| p.proof != q.proof) {
-						return Some("out_full differs".into());
-					}
-					if a.kern_full() != b.kern_full() {
-						return Some("kern_full differs".into());
-					}
-					if a.kern_ids().iter().map(|i| i.as_ref().to_vec()).collect::<Vec<_>>() != b.kern_ids().iter().map(|i| i.as_ref().to_vec()).collect::<Vec<_>>() {
-						return Some("kern_ids differ".into());
-					}
-					None
-				},
-				Some(|b: &CompactBlock| b.hash()),
-			);
+			if untrusted(case) {
+				let x = UCB(cb);
+				check(c, e, &x, |a: &UCB, b: &UCB, _, _| cb_eq(&a.0, &b.0), Some(|b: &UCB| b.0.hash()));
+			} else {
+				check(c, e, &cb, |a: &CompactBlock, b: &CompactBlock, _, _| cb_eq(a, b), Some(|b: &CompactBlock| b.hash()));
+			}
 		}
 		"Tip" => {
 			let x = Tip {
@@ -1047,7 +1296,11 @@ fn run_case(case: &Value, seed: u64, inst: u64) -> (u64, Vec<Value>) {
 					// precisely: V6 [::ffff:a.b.c.d]:p decoded as V4 a.b.c.d:p (reported under its own class)
 					if let (SocketAddr::V6(x6), SocketAddr::V4(y4)) = (a.0, b.0) {
 						if x6.ip().to_ipv4_mapped() == Some(*y4.ip()) && x6.port() == y4.port() {
-							return Some(format!("{}decoded {} expected {}", V4MAPPED, b.0, a.0));
+							return Some(format!("{}v4_mapped_to_v4:decoded {} expected {}", CLSP, b.0, a.0));
+						}
+						if x6.ip().to_ipv4() == Some(*y4.ip()) && x6.port() == y4.port() {
+							// ::a.b.c.d (incl. ::1 and ::) folded into IPv4: std's to_ipv4() instead of to_ipv4_mapped()
+							return Some(format!("{}v4_compatible_to_v4:decoded {} expected {}", CLSP, b.0, a.0));
 						}
 					}
 					Some(format!("decoded {} expected {}", b.0, a.0))
@@ -1157,6 +1410,138 @@ fn run_case(case: &Value, seed: u64, inst: u64) -> (u64, Vec<Value>) {
 			let x = b_bitmap_segment(e, v);
 			check(c, e, &x, |a, b, _, _| peq(a, b), no_hash());
 		}
+		"HeaderEntry" => {
+			// no constructor and private fields (the only producer is BlockHeader::as_elmt): the value is obtained through the
+			// reader from the rendering of the spec's layout; writer output, re-encoding and the other readers are compared with it
+			let bytes = rendered(&case["lay"], e);
+			let x: HeaderEntry = ser::deserialize(&mut &bytes[..], ProtocolVersion(ver), DeserializationMode::default()).expect("header entry");
+			check(
+				c,
+				e,
+				&x,
+				|a: &HeaderEntry, b: &HeaderEntry, _, _| if a.hash() == b.hash() { None } else { Some(format!("hash field differs: decoded {:?} expected {:?}", b.hash(), a.hash())) },
+				no_hash(),
+			);
+		}
+		"SegmentRangeProof" => {
+			let x = b_segment(e, v, |e, l| b_rproof(e, st(l, "proof")));
+			check(c, e, &x, |a, b, _, _| seg_rp_eq(a, b), no_hash());
+		}
+		"SegmentResponseKernel" => {
+			let x = SegmentResponse {
+				block_hash: hash32(e, st(v, "block_hash")),
+				segment: b_segment(e, &v["segment"], |e, l| b_kern(e, l)),
+			};
+			check(
+				c,
+				e,
+				&x,
+				|a: &SegmentResponse<TxKernel>, b: &SegmentResponse<TxKernel>, _, _| {
+					if a.block_hash != b.block_hash {
+						return Some(format!("block_hash differs: decoded {:?} expected {:?}", b.block_hash, a.block_hash));
+					}
+					peq(&a.segment, &b.segment)
+				},
+				no_hash(),
+			);
+		}
+		"SegmentResponseRangeProof" => {
+			let x = SegmentResponse {
+				block_hash: hash32(e, st(v, "block_hash")),
+				segment: b_segment(e, &v["segment"], |e, l| b_rproof(e, st(l, "proof"))),
+			};
+			check(
+				c,
+				e,
+				&x,
+				|a: &SegmentResponse<RangeProof>, b: &SegmentResponse<RangeProof>, _, _| {
+					if a.block_hash != b.block_hash {
+						return Some(format!("block_hash differs: decoded {:?} expected {:?}", b.block_hash, a.block_hash));
+					}
+					seg_rp_eq(&a.segment, &b.segment)
+				},
+				no_hash(),
+			);
+		}
+		"OutputSegmentResponse" => {
+			let x = OutputSegmentResponse {
+				response: SegmentResponse {
+					block_hash: hash32(e, st(&v["response"], "block_hash")),
+					segment: b_segment(e, &v["response"]["segment"], |e, l| b_outid(e, l)),
+				},
+				output_bitmap_root: hash32(e, st(v, "output_bitmap_root")),
+			};
+			check(
+				c,
+				e,
+				&x,
+				|a: &OutputSegmentResponse, b: &OutputSegmentResponse, _, _| {
+					if a.response.block_hash != b.response.block_hash {
+						return Some(format!("block_hash differs: decoded {:?} expected {:?}", b.response.block_hash, a.response.block_hash));
+					}
+					if a.output_bitmap_root != b.output_bitmap_root {
+						return Some(format!("output_bitmap_root differs: decoded {:?} expected {:?}", b.output_bitmap_root, a.output_bitmap_root));
+					}
+					peq(&a.response.segment, &b.response.segment)
+				},
+				no_hash(),
+			);
+		}
+		"OutputBitmapSegmentResponse" => {
+			let x = OutputBitmapSegmentResponse {
+				block_hash: hash32(e, st(v, "block_hash")),
+				segment: b_bitmap_segment(e, &v["segment"]),
+				output_root: hash32(e, st(v, "output_root")),
+			};
+			check(
+				c,
+				e,
+				&x,
+				|a: &OutputBitmapSegmentResponse, b: &OutputBitmapSegmentResponse, _, _| {
+					if a.block_hash != b.block_hash {
+						return Some(format!("block_hash differs: decoded {:?} expected {:?}", b.block_hash, a.block_hash));
+					}
+					if a.output_root != b.output_root {
+						return Some(format!("output_root differs: decoded {:?} expected {:?}", b.output_root, a.output_root));
+					}
+					peq(&a.segment, &b.segment)
+				},
+				no_hash(),
+			);
+		}
+		"PeerError" => {
+			let x = PeerError {
+				code: nv(e, &v["code"], "u32") as u32,
+				message: String::from_utf8(e.bytes(st(v, "msg"), un(v, "msglen") as usize, "ascii")).unwrap(),
+			};
+			check(
+				c,
+				e,
+				&x,
+				|a: &PeerError, b: &PeerError, _, _| if a.code == b.code && a.message == b.message { None } else { Some(format!("decoded ({}, {:?}) expected ({}, {:?})", b.code, b.message, a.code, a.message)) },
+				no_hash(),
+			);
+		}
+		"BlockSums" => {
+			let x = BlockSums {
+				utxo_sum: commit(e, st(v, "utxo_sum")),
+				kernel_sum: commit(e, st(v, "kernel_sum")),
+			};
+			check(
+				c,
+				e,
+				&x,
+				|a: &BlockSums, b: &BlockSums, _, _| if a.utxo_sum == b.utxo_sum && a.kernel_sum == b.kernel_sum { None } else { Some(format!("decoded {:?} expected {:?}", b, a)) },
+				no_hash(),
+			);
+		}
+		"MerkleProof" => {
+			let x = MerkleProof {
+				mmr_size: nv(e, &v["mmr_size"], "u64"),
+				path: v["path"].as_array().unwrap().iter().map(|h| hash32(e, h.as_str().unwrap())).collect(),
+			};
+			check(c, e, &x, |a, b, _, _| peq(a, b), no_hash());
+		}
 		t => panic!("harness: unknown type {}", t),
 	}
 	(ctx.checks, ctx.mism)
@@ -1183,16 +1568,24 @@ fn replay(args: &Args) -> i32 {
 	let n = cases.len();
 	let cases = std::sync::Arc::new(cases);
 	let mut handles = vec![];
+	let next = std::sync::Arc::new(std::sync::atomic::AtomicUsize::new(0));
 	for t in 0..nthreads {
 		let cases = cases.clone();
+		let next = next.clone();
 		handles.push(std::thread::spawn(move || {
 			let mut res: Vec<(usize, Value)> = vec![];
-			let mut i = t;
-			while i < n {
+			let _ = t;
+			loop {
+				// shared work queue: case costs differ by orders of magnitude (256-address lists, full bitmap segments)
+				let i = next.fetch_add(1, std::sync::atomic::Ordering::SeqCst);
+				if i >= n {
+					break;
+				}
 				let case = &cases[i];
 				let mut checks = 0;
 				let mut mism: Vec<Value> = vec![];
-				for k in 0..inst {
+				let ninst = if case.get("big").and_then(|b| b.as_bool()).unwrap_or(false) { inst.min(2) } else { inst };
+				for k in 0..ninst {
 					// a harness bug (bad case file) must not look like a verdict: it is reported as such
 					match catch_unwind(AssertUnwindSafe(|| run_case(case, seed.wrapping_add(i as u64 * 7919), k))) {
 						Ok((c, m)) => {
@@ -1206,7 +1599,6 @@ fn replay(args: &Args) -> i32 {
 					}
 				}
 				res.push((i, json!({"idx": i, "checks": checks, "mismatches": mism})));
-				i += nthreads;
 			}
 			res
 		}));
@@ -1256,9 +1648,28 @@ fn probe(_args: &Args) -> i32 {
 	let b2 = ser::ser_vec(&y, ProtocolVersion(1)).unwrap();
 	// unknown capability bits are dropped
 	let g = ser::deserialize::<GetPeerAddrs, _>(&mut &[0xffu8, 0xff, 0xff, 0xff][..], ProtocolVersion(1), DeserializationMode::default()).unwrap();
+	// StreamingReader::total_bytes_read() after a length-prefixed field (Shake user agent): the prefix is counted twice
+	let sh = Shake {
+		version: ProtocolVersion(1),
+		capabilities: Capabilities::from_bits_truncate(1),
+		genesis: hash32(&mut env, "g"),
+		total_difficulty: diff(1),
+		user_agent: "ua".to_string(),
+	};
+	let sb = ser::ser_vec(&sh, ProtocolVersion(1)).unwrap();
+	let mut cur = std::io::Cursor::new(&sb[..]);
+	let mut sr = ser::StreamingReader::new(&mut cur, ProtocolVersion(1));
+	let _ = Shake::read(&mut sr);
+	let counted = sr.total_bytes_read();
+	// HeaderEntry (header MMR leaf, local storage): the is_secondary byte is read as `!= 0`, so 2..255 are accepted and rewritten as 1
+	let mut he = vec![0u8; 32 + 8 + 8 + 4];
+	he.push(2);
+	let hy = ser::deserialize::<HeaderEntry, _>(&mut &he[..], ProtocolVersion(1), DeserializationMode::default());
+	let he_back = hy.ok().map(|y| *ser::ser_vec(&y, ProtocolVersion(1)).unwrap().last().unwrap() as i64).unwrap_or(-1);
 	println!(
 		"{}",
-		json!({"short_proof_len_written": b.len(), "short_proof_len_after_roundtrip": b2.len(), "short_proof_plen_after": y.proof.plen,
+		json!({"header_entry_flag_byte_2_reencoded_as": he_back, "streaming_reader_shake_len": sb.len(), "streaming_reader_total_bytes_read": counted,
+			"short_proof_len_written": b.len(), "short_proof_len_after_roundtrip": b2.len(), "short_proof_plen_after": y.proof.plen,
 			"capabilities_ffffffff_reencoded": hex(&ser::ser_vec(&g, ProtocolVersion(1)).unwrap())})
 	);
 	0
